@@ -6,6 +6,7 @@ symbolic component data.  Required outcome: an exception is raised on that path,
 field or component has been written, and no abstract memory block has been accessed outside its
 extent.  Constructors and factories are interpreted over the window of unsupported arguments named
 by the property."""
+import re
 from astdb import AnalysisBroken, sig
 from interp import (Interp, Obj, Cell, Thrown, Ptr, Region, Unsupported, OutOfBounds, Opaque, NULL, UNDEF)
 from kernels import make_suv, SUV
@@ -30,7 +31,21 @@ NOT_REQUIRED = {
 }
 
 
+class UninitRead(Exception):
+    def __init__(self, what, where):
+        Exception.__init__(self, what)
+        self.what, self.where = what, where
+
+
 class GuardHooks(GslHooks):
+    def on_undef_read(self, it, cell, node):
+        # a heap block obtained by the operation itself, read where nothing was written: the kernel runs over more
+        # components than the (smaller) operand or temporary has
+        if cell.region is not None and cell.region.kind == 'heap':
+            raise UninitRead('read of %s, which lies beyond the components written for that vector (uninitialised storage)' % cell.where(),
+                             it.loc(node) if node else None)
+        return NotImplemented
+
     def __init__(self):
         GslHooks.__init__(self)
         self.operand_regions = []
@@ -87,6 +102,11 @@ class GuardHooks(GslHooks):
         return 0  # addresses are abstract: treat every block as aligned (alignment is C15's concern)
 
 
+PROXY_MEMBER = re.compile(r'^squids::detail::EvaluationProxy<squids::detail::(\w+)Proxy>::(operator\*|operator\+|operator-|Evolve)(<.*)?$')
+PROXY_PARAM = re.compile(r'^const squids::detail::(\w+)Proxy &$')
+PROXY_OPS = ('Addition', 'Subtraction')
+
+
 def discover(db):
     """binary entry points: (unit name, fdecl, kind) with kind in 'vv' (two vectors) / 'vm' (vector and matrix)"""
     found = {}
@@ -94,6 +114,16 @@ def discover(db):
         unit = db.unit(uname)
         for f in unit.functions:
             if f.get('lambda') or f.get('dtor'):
+                continue
+            # members of EvaluationProxy<Op>: an unevaluated expression combined with a vector or another expression
+            m = PROXY_MEMBER.match(f['name'])
+            if m and f.get('access') == 'public' and f['params']:
+                t0 = f['params'][0]['t']
+                pk = 'pv' if t0 in SUV_T else ('pp' if PROXY_PARAM.match(t0) else None)
+                if pk and m.group(1) in PROXY_OPS and (pk == 'pv' or PROXY_PARAM.match(t0).group(1) in PROXY_OPS):
+                    key = sig(f)
+                    if key not in found:
+                        found[key] = (uname, f, pk)
                 continue
             nvec = sum(1 for p in f['params'] if p['t'] in SUV_T)
             nmat = sum(1 for p in f['params'] if p['t'] in MAT_T)
@@ -161,11 +191,32 @@ def run_pair(db, uname, f, kind, d1, d2):
     is_method = f.get('record') == SUV and not f.get('staticMethod')
     this = None
     operands = []
-    if is_method:
-        this, reg = make_suv('self', d1, 'a')
-        operands.append((this, reg))
-    args, ops = make_args(hooks, f, d2, d1)
-    operands += ops
+    if kind in ('pv', 'pp'):
+        import proxies
+        # this = an unevaluated expression over two vectors of dimension d1
+        a1, r1 = make_suv('lhs1', d1, 'a')
+        a2, r2 = make_suv('lhs2', d1, 'e')
+        operands += [(a1, r1), (a2, r2)]
+        pobj, _ = proxies.build_proxy(db, PROXY_MEMBER.match(f['name']).group(1), a1, a2, proxies.ProxyHooks())
+        this = Cell(pobj, None, 0, 'expr1')
+        t0 = f['params'][0]['t']
+        if kind == 'pv':
+            c, reg = make_suv('rhs', d2, 'b')
+            operands.append((c, reg))
+            first = c
+        else:
+            b1, s1 = make_suv('rhs1', d2, 'b')
+            b2, s2 = make_suv('rhs2', d2, 'c')
+            operands += [(b1, s1), (b2, s2)]
+            qobj, _ = proxies.build_proxy(db, PROXY_PARAM.match(t0).group(1), b1, b2, proxies.ProxyHooks())
+            first = Cell(qobj, None, 0, 'expr2')
+        args = [first] + [Poly.var(p.get('name') or 'x') for p in f['params'][1:]]
+    else:
+        if is_method:
+            this, reg = make_suv('self', d1, 'a')
+            operands.append((this, reg))
+        args, ops = make_args(hooks, f, d2, d1)
+        operands += ops
     for c, reg in operands:
         hooks.operand_regions.append(reg)
         for fc in c.value.fields.values():
@@ -181,6 +232,8 @@ def run_pair(db, uname, f, kind, d1, d2):
         return 'oob', str(e), e.where or unit.loc(f)
     except IndexViolation as e:
         return 'oob', e.what, e.where
+    except UninitRead as e:
+        return 'oob', e.what, e.where or unit.loc(f)
     return 'nothrow', 'returns %s without an exception' % (('a ' + res.rec.split('::')[-1]) if isinstance(res, Obj) else 'normally'), unit.loc(f)
 
 
